@@ -131,7 +131,7 @@ class ParseRoles:
                     return True
                 for k in range(1, g.arg_count + 1):
                     ty = g.locals[k]['ty']
-                    if re.match(r'^(for<[^>]*> )?(unsafe )?fn\(', ty) or re.match(r'^(&(mut )?)?[A-Z]\w{0,3}$', ty) or 'closure@' in ty or 'Fn(' in ty:
+                    if re.match(r'^(for<[^>]*> )?(unsafe )?fn\(', ty) or re.match(r'^(&(mut )?)?[A-Z]\w{0,3}$', ty) or 'closure@' in ty or re.search(r'Fn(Mut|Once)?\(', ty):
                         return False
                 # private *value* helpers of the scanner (`span_from(&self, start)`, `text_from(&self, start)`): they
                 # cannot advance (shared receiver) and only package positions / slices; the position reads themselves
@@ -402,11 +402,14 @@ def rule_wexpect(roles):
     def keep(g):
         # open only predicates on the token itself (`token.is_symbol(expected)`); payload renderers stay calls
         pred = g.arg_count >= 1 and (roles.token_adt or '\0') in g.locals[1]['ty'] and g.locals[0]['ty'] == 'bool'
-        return not pred
+        # ... and guard helpers that turn a bool into a Result (`ensure(matched, || err)?`)
+        guard = (not g.is_pub and g.arg_count >= 1 and g.locals[1]['ty'] == 'bool' and 'Result<' in g.locals[0]['ty'])
+        return not (pred or guard)
     v = roles.prog.view(e, keep=keep, tag='wexpect')
     if v is not e:
         second = _rule_wexpect(roles, v)
-        if not any(o.status == 'violated' for o in second):
+        from engine import covers
+        if covers([o for o in first if 'never-ok' not in o.key and '|tail|' not in o.key and '|kind|' not in o.key], second) and not any(o.status == 'violated' for o in second):
             for o in second:
                 o.what += ' [read with helpers inlined]'
             return second
@@ -583,6 +586,24 @@ def _closer_edges(roles, b, lit):
     return edges
 
 
+def _edges_cut(b, edges, target):
+    """every path from the entry to `target` uses one of the CFG edges (s, t) in `edges`"""
+    cut = {(e[0], e[1]) for e in edges}
+    seen = set()
+    st = [0]
+    while st:
+        x = st.pop()
+        if x in seen:
+            continue
+        seen.add(x)
+        if x == target:
+            return False
+        for y in b.succ[x]:
+            if (x, y) not in cut:
+                st.append(y)
+    return True
+
+
 def paren_bodies(roles):
     """PAREN role: a TOKEN-NEXT-family call dominates a sub-parse whose Ok payload is returned
     unchanged"""
@@ -609,6 +630,9 @@ def rule_closer(roles):
                 key = 'CLOSER|%s|%s|bb-ord%d' % (b.name, variant, len([o for o in obs if o.key.startswith('CLOSER|%s|%s' % (b.name, variant))]))
                 edges = _closer_edges(roles, b, lit)
                 hit = [e for e in edges if edge_dominates(b, e[0], e[1], bb)]
+                if not hit and edges and _edges_cut(b, edges, bb):
+                    # no single check dominates, but every path passes one of them (`if !at_closer { loop { .. if at_closer { break } .. } }`)
+                    hit = [(edges[0][0], edges[0][1], 'one of %d checks on every path: %s' % (len(edges), ', '.join(sorted({e[2] for e in edges}))))]
                 if hit:
                     obs.append(ok('CLOSER', key, 'the %s node is returned only after the closing "%s" was checked (%s)' % (variant, lit, hit[0][2]), b.where(bb)))
                 else:
@@ -909,13 +933,25 @@ def passes_edge(body, target_bb, witness_edges, depth=0):
 
 
 def rule_strterm(roles):
+    first = _rule_strterm(roles, roles.token_bodies())
+    if not any(o.status == 'violated' for o in first):
+        return first
+    second = _rule_strterm(roles, roles.token_bodies(views='ho'))
+    from engine import covers
+    if covers(first, second) and not any(o.status == 'violated' for o in second):
+        for o in second:
+            o.what += ' [read with guard helpers opened]'
+        return second
+    return first
+
+
+def _rule_strterm(roles, bodies):
     """a String token is produced only after a character equal to the opening quote was consumed"""
     obs = []
     prog = roles.prog
     tname = roles.token_adt
     n = 0
-    for bid in sorted(roles.reach):
-        b = prog.by_id[bid]
+    for b in bodies:
         for bb, i, pl, rv in b.assigns():
             if rv['k'] == 'agg' and rv.get('adt') == tname and rv.get('variant') == 'String':
                 n += 1
